@@ -20,7 +20,7 @@ use model::*;
 use scen::{RunResult, run_once};
 use vcore::{Report, Tier, Value, Violation, json};
 
-fn grid_rows() -> Vec<Row> {
+fn grid_rows(tier: Tier) -> Vec<Row> {
     let mut rows = Vec::new();
     for payload in [0usize, 1, 1200, 70_000] {
         let chunks: &[Chunk] = if payload <= 1200 { &[Chunk::One, Chunk::K, Chunk::All] } else { &[Chunk::K, Chunk::All] };
@@ -42,7 +42,26 @@ fn grid_rows() -> Vec<Row> {
             }
         }
     }
+    if tier == Tier::Quick {
+        rows.retain(quick_grid_filter);
+    }
     rows
+}
+
+/// quick tier: a fixed sub-grid in which every listed value of every dimension still occurs (the
+/// full product is the thorough tier)
+fn quick_grid_filter(r: &Row) -> bool {
+    // payloads 0 / 1: chunk sizes make no difference to the bytes on the wire -> only (1, 1) and
+    // (all, all); payloads 1200 / 70000: every chunking
+    let chunk_ok = match r.payload {
+        0 | 1 => (r.wchunk == r.rchunk) && r.wchunk != Chunk::K,
+        _ => true,
+    };
+    // API flavour alternates with the datagram dimension (both for payload 1200), the stream
+    // limit with the reader pacing (both for the mixed streams)
+    let api_ok = (r.api == Api::Io) == (r.dgrams == 0) || r.payload == 1200;
+    let limit_ok = (r.limit == 1) == (r.pacing == Pacing::Gated) || r.streams == Streams::Mixed3;
+    chunk_ok && api_ok && limit_ok
 }
 
 /// The "small half" of the grid that part B closes at every event: payloads that fit a few
@@ -60,7 +79,7 @@ fn close_rows(tier: Tier) -> Vec<Row> {
                                 let row = Row { payload, wchunk, rchunk, api, streams, dgrams, win, limit, pacing: Pacing::Eager };
                                 if tier == Tier::Quick {
                                     // quick: one chunking per API flavour, stream limit 1 together with the small windows
-                                    let ok = (api == Api::Io) == (wchunk == Chunk::K) && (limit == 1) == (win == Win::Small);
+                                    let ok = (api == Api::Io) == (wchunk == Chunk::K) && (limit == 1) == (win == Win::Small) && (dgrams == 2) == (streams == Streams::Mixed3);
                                     if !ok {
                                         continue;
                                     }
@@ -80,8 +99,12 @@ struct Agg {
     counters: Mutex<BTreeMap<String, u64>>,
     runs_a: AtomicU64,
     runs_b: AtomicU64,
+    runs_c: AtomicU64,
     reruns: AtomicU64,
     unreproduced: Mutex<Vec<Value>>,
+    side: Mutex<BTreeMap<String, (String, u64)>>,
+    /// violations of parts A / B (part C is a separate, possibly known, finding)
+    ab_violations: AtomicU64,
     max_ms: AtomicU64,
 }
 
@@ -97,7 +120,16 @@ fn absorb(report: &Report, agg: &Agg, spec: &RunSpec, r: &RunResult) {
         }
     }
     agg.max_ms.fetch_max(r.wall_ms, Ordering::Relaxed);
+    for (class, what) in &r.side_findings {
+        // a side finding is an observation class of its own
+        report.outcome(format!("side-finding:{class}"));
+        let mut g = agg.side.lock().unwrap();
+        g.entry(class.clone()).or_insert_with(|| (what.clone(), 0)).1 += 1;
+    }
     for (key, what) in &r.problems {
+        if spec.pre == Pre::Nothing {
+            agg.ab_violations.fetch_add(1, Ordering::Relaxed);
+        }
         report.violation(Violation { key: key.clone(), what: format!("{what}; last events: {}", r.log_tail.iter().rev().take(10).rev().cloned().collect::<Vec<_>>().join(" | ")), replay: spec.json() });
     }
 }
@@ -112,6 +144,9 @@ fn run_checked(report: &Report, agg: &Agg, spec: &RunSpec) -> RunResult {
         absorb(report, agg, spec, &r2);
         match &r2.hang {
             Some((key2, what2)) => {
+                if spec.pre == Pre::Nothing {
+                    agg.ab_violations.fetch_add(1, Ordering::Relaxed);
+                }
                 report.violation(Violation {
                     key: key.clone(),
                     what: format!("{what} || reproduced in a second run ({}): {what2}", if key2 == key { "same futures" } else { key2.as_str() }),
@@ -142,6 +177,12 @@ fn hold_udp_gro() -> Option<std::net::UdpSocket> {
 
 fn main() {
     let _gro_keeper = hold_udp_gro();
+    let default_hook = std::panic::take_hook();
+    std::panic::set_hook(Box::new(move |info| {
+        if !scen::EXPECT_PANIC.with(|e| e.get()) {
+            default_hook(info);
+        }
+    }));
     let args = vcore::parse_args();
     if args.property != "C16" {
         vcore::machinery_error("e_c16 serves property C16 only");
@@ -189,8 +230,11 @@ fn main() {
         counters: Mutex::new(BTreeMap::new()),
         runs_a: AtomicU64::new(0),
         runs_b: AtomicU64::new(0),
+        runs_c: AtomicU64::new(0),
         reruns: AtomicU64::new(0),
         unreproduced: Mutex::new(Vec::new()),
+        side: Mutex::new(BTreeMap::new()),
+        ab_violations: AtomicU64::new(0),
         max_ms: AtomicU64::new(0),
     };
     // part A runs are CPU-bound (a few ms each); part B runs mostly wait (drain timers ~ 3 PTO)
@@ -201,12 +245,12 @@ fn main() {
     let reps_a: usize = tier.pick(1, 2);
 
     // ---- part A: the grid -------------------------------------------------------------------
-    let rows = grid_rows();
+    let rows = grid_rows(tier);
     let mut items_a: Vec<RunSpec> = Vec::new();
     for _ in 0..reps_a {
         for &driver in drivers {
             for row in &rows {
-                items_a.push(RunSpec { row: row.clone(), driver, probes: false, close: None });
+                items_a.push(RunSpec { pre: Pre::Nothing, row: row.clone(), driver, probes: false, close: None });
             }
         }
     }
@@ -219,13 +263,25 @@ fn main() {
     });
     let t_a = report.elapsed();
 
+    // ---- part C: `closed()` futures that are dropped / duplicated ---------------------------
+    let mut items_c: Vec<RunSpec> = Vec::new();
+    for pre in [Pre::ClosedDropped, Pre::ClosedTwice] {
+        for streams in [Streams::Uni1, Streams::Bi1, Streams::Mixed3] {
+            for win in [Win::Small, Win::Default] {
+                let row = Row { payload: 1200, wchunk: Chunk::K, rchunk: Chunk::K, api: Api::Io, streams, dgrams: 2, win, limit: 100, pacing: Pacing::Eager };
+                items_c.push(RunSpec { pre, row, driver: Drv::Uring, probes: false, close: None });
+            }
+        }
+    }
     // ---- part B: close points ---------------------------------------------------------------
     let crow = close_rows(tier);
     // reference runs: number of harness-visible events of the un-closed run (per driver)
-    let ref_items: Vec<(usize, Drv)> = drivers.iter().flat_map(|&d| (0..crow.len()).map(move |i| (i, d))).collect();
+    // part B runs on io_uring only (the poll driver is sampled by part A of the thorough tier)
+    let drivers_b: &[Drv] = &[Drv::Uring];
+    let ref_items: Vec<(usize, Drv)> = drivers_b.iter().flat_map(|&d| (0..crow.len()).map(move |i| (i, d))).collect();
     let refs: Vec<Mutex<u64>> = ref_items.iter().map(|_| Mutex::new(0)).collect();
     vcore::par_for_each_n(&ref_items, threads_a, |j, &(i, driver)| {
-        let spec = RunSpec { row: crow[i].clone(), driver, probes: true, close: None };
+        let spec = RunSpec { pre: Pre::Nothing, row: crow[i].clone(), driver, probes: true, close: None };
         let r = run_checked(&report, &agg, &spec);
         *refs[j].lock().unwrap() = r.events;
     });
@@ -240,11 +296,14 @@ fn main() {
         for kind in CloseKind::ALL {
             for &side in sides {
                 for k in 0..=n {
-                    items.push(RunSpec { row: crow[i].clone(), driver, probes: true, close: Some(ClosePlan { k, kind, side }) });
+                    items.push(RunSpec { pre: Pre::Nothing, row: crow[i].clone(), driver, probes: true, close: Some(ClosePlan { k, kind, side }) });
                 }
             }
         }
     }
+    // part C runs ride along (a stranded run costs its watchdog twice, in parallel with part B)
+    let n_b = items.len();
+    items.extend(items_c.iter().cloned());
     // interleave long and short rows
     let stride = 7919usize;
     let n_items = items.len();
@@ -252,8 +311,8 @@ fn main() {
     vcore::par_for_each_n(&order, threads_b, |j, &idx| {
         let spec = &items[idx];
         let r = run_checked(&report, &agg, spec);
-        agg.runs_b.fetch_add(1, Ordering::Relaxed);
-        if j % 1501 == 0 {
+        if spec.close.is_some() { &agg.runs_b } else { &agg.runs_c }.fetch_add(1, Ordering::Relaxed);
+        if j % 1501 == 0 && spec.close.is_some() {
             report.sample(12, || json!({"part": "B", "spec": spec.json(), "events": r.events, "outcomes": r.outcomes, "wall_ms": r.wall_ms}));
         }
     });
@@ -263,6 +322,7 @@ fn main() {
     for (k, v) in &counters {
         report.count(k, *v);
     }
+    let mut must: Vec<String> = Vec::new();
     for k in [
         "flows_verified",
         "writer_blocked",
@@ -273,6 +333,7 @@ fn main() {
         "close_point_hit",
     ] {
         report.must_reach(k);
+        must.push(k.to_string());
     }
     for kind in [
         "open_uni_wait",
@@ -291,9 +352,18 @@ fn main() {
     ] {
         report.must_reach(&format!("pending_at_close:{kind}"));
         report.must_reach(&format!("resolved_after_close:{kind}"));
+        must.push(format!("pending_at_close:{kind}"));
+        must.push(format!("resolved_after_close:{kind}"));
+    }
+    // vcore treats must-reach events of a non-exhaustive run as notes; this check is declared
+    // non-exhaustive on principle (exploration level), so the vacuity guard is enforced here
+    // (unless parts A / B already found violations: then runs legitimately end early)
+    let missing: Vec<&String> = must.iter().filter(|k| counters.get(*k).copied().unwrap_or(0) == 0).collect();
+    if !missing.is_empty() && agg.ab_violations.load(Ordering::Relaxed) == 0 {
+        vcore::machinery_error(&format!("vacuous exploration: never reached {missing:?}"));
     }
     report.rule(
-        "EXPLORATION, not exhaustive schedule coverage. Enumerated exhaustively: (A) every row of the configuration grid in `bounds.grid` (one real execution per row: two compio-quic endpoints in one compio runtime over loopback UDP), (B) for every row of `bounds.close_rows`, close kind and closing side: the close injected synchronously inside the k-th harness-visible event (completed write/read/open/accept/finish/stopped/datagram operation) for EVERY k from 0 to the event count of the un-closed reference run, with one hand-polled future of every kind pending on both sides, each with its own waker. NOT enumerated: packet arrival order, pacing, loss, timers (real UDP sockets, real time) - one sample per enumerated point. evaluations = real executions; distinct_nontrivial = distinct observation classes (grid outcome classes, results of pending futures per close kind / side / future kind, errors seen by scenario operations after a close).",
+        "EXPLORATION, not exhaustive schedule coverage. Enumerated exhaustively: (A) every row of the configuration grid in `bounds.grid` (one real execution per row: two compio-quic endpoints in one compio runtime over loopback UDP), (B) for every row of `bounds.close_rows`, close kind and closing side: the close injected synchronously inside the k-th harness-visible event (completed write/read/open/accept/finish/stopped/datagram operation) for EVERY k from 0 to the event count of the un-closed reference run, with one hand-polled future of every kind pending on both sides, each with its own waker, (C) a dropped / a duplicated Connection::closed() future before the scenario for the rows of `bounds.closed_future_rows`. NOT enumerated: packet arrival order, pacing, loss, timers (real UDP sockets, real time) - one sample per enumerated point. evaluations = real executions; distinct_nontrivial = distinct observation classes (grid outcome classes, results of pending futures per close kind / side / future kind, errors seen by scenario operations after a close).",
     );
     report.assume("packet-level interleavings, loss, reordering and timer races are not controlled: compio-quic runs quinn-proto over real UDP sockets with real-time timers; each enumerated configuration / close point is executed once (a watchdog expiry is re-run once and reported only if it reproduces)");
     report.assume("the connection state machine is quinn-proto's (a dependency); the check observes compio-quic's public API only");
@@ -327,20 +397,27 @@ fn main() {
                 "rows": rows.len(),
                 "drivers": drivers.iter().map(|d| d.name()).collect::<Vec<_>>(),
                 "samples_per_row_and_driver": reps_a,
+                "quick_subgrid": "quick: payload 0/1 only with chunkings (1,1),(all,all); API flavour alternates with the datagram dimension except for payload 1200; stream limit alternates with reader pacing except for mixed3; thorough: the full product",
             },
             "close_rows": {
                 "payload": tier.pick(vec![1200], vec![1, 1200]),
                 "chunkings": ["(1000,1000)", "(all,all)"],
                 "rows": crow.len(),
-                "quick_subset": "quick: payload 1200 only, chunking (1000,1000) with the io API and (all,all) with the chunks API, stream limit 1 together with the small windows / 100 with the default windows, closing side client only; thorough: the full product",
-                "drivers": drivers.iter().map(|d| d.name()).collect::<Vec<_>>(),
+                "quick_subset": "quick: payload 1200 only, chunking (1000,1000) with the io API and (all,all) with the chunks API, stream limit 1 together with the small windows / 100 with the default windows, datagrams only together with the mixed streams, closing side client only; thorough: the full product",
+                "drivers": drivers_b.iter().map(|d| d.name()).collect::<Vec<_>>(),
                 "close_kinds": ["conn-close", "endpoint-close", "endpoint-shutdown"],
                 "closing_side": sides.iter().map(|s| s.name()).collect::<Vec<_>>(),
                 "k": "0 ..= events of the un-closed reference run",
                 "max_events_of_a_reference_run": max_events,
                 "sum_of_reference_events": sum_events,
-                "close_runs": items.len(),
+                "close_runs": n_b,
                 "pending_future_kinds": ["open_uni_wait", "open_bi_wait", "accept_uni", "accept_bi", "read", "received_reset", "stopped", "write (flow-control blocked; small-window rows only)", "recv_datagram", "send_datagram_wait", "closed", "wait_incoming (endpoint kinds)", "shutdown (endpoint-shutdown)"],
+            },
+            "closed_future_rows": {
+                "what": "part C: before the scenario both sides (a) create a Connection::closed() future, poll it once and drop it, (b) hold two closed() futures at once; afterwards the scenario has to run as usual",
+                "rows": "payload 1200, chunk 1000, io API, 2 datagrams, streams {uni1, bi1, mixed3} x window {small, default}",
+                "runs": items_c.len(),
+                "run_limit_s": scen::PART_C_LIMIT.as_secs(),
             },
             "watchdog_s": scen::WATCHDOG.as_secs(),
             "threads": [threads_a, threads_b],
@@ -351,12 +428,20 @@ fn main() {
         json!({
             "grid_runs": agg.runs_a.load(Ordering::Relaxed),
             "close_runs": agg.runs_b.load(Ordering::Relaxed),
+            "closed_future_runs": agg.runs_c.load(Ordering::Relaxed),
             "reference_runs": ref_items.len(),
             "reruns_after_watchdog": agg.reruns.load(Ordering::Relaxed),
             "grid_wall_s": t_a,
             "slowest_run_ms": agg.max_ms.load(Ordering::Relaxed),
         }),
     );
+    let side = agg.side.lock().unwrap().clone();
+    if !side.is_empty() {
+        for (class, (what, n)) in &side {
+            println!("note: side finding outside the statement of C16 (not a violation): {class} x{n}: {what}");
+        }
+        report.extra("side_findings", json!(side.iter().map(|(c, (w, n))| json!({"class": c, "what": w, "occurrences": n})).collect::<Vec<_>>()));
+    }
     let unrep = agg.unreproduced.lock().unwrap().clone();
     if !unrep.is_empty() {
         report.cap_hit(&format!("{} watchdog expiries did not reproduce in a second run (not reported as violations; see unreproduced_watchdog_expiries)", unrep.len()));
